@@ -64,8 +64,14 @@ pub fn unify(state: &mut TypeCheckerState, watchdog: &DynWatchdog) -> Result<()>
     let polling_interval = watchdog.poll_every();
     let mut counter = 0;
 
+    #[cfg(smlxl_storage_layout_extractor_verif)]
+    crate::verif::loop_enter(crate::verif::Site::Unify);
+
     // Then, we loop until we stop making progress.
     loop {
+        #[cfg(smlxl_storage_layout_extractor_verif)]
+        crate::verif::note_round();
+
         // Create the set of new equalities.
         let mut all_equalities: HashSet<Equality> = HashSet::new();
         let mut all_judgements: HashSet<Judgement> = HashSet::new();
@@ -75,6 +81,9 @@ pub fn unify(state: &mut TypeCheckerState, watchdog: &DynWatchdog) -> Result<()>
         let mut made_progress = false;
 
         for (ty_var, inferences) in forest.sets() {
+            #[cfg(smlxl_storage_layout_extractor_verif)]
+            crate::verif::tick(crate::verif::Site::Unify);
+
             // If we have been told to stop, stop and return an error.
             if counter % polling_interval == 0 && watchdog.should_stop() {
                 let location = state.value_unchecked(ty_var).instruction_pointer();
@@ -84,6 +93,8 @@ pub fn unify(state: &mut TypeCheckerState, watchdog: &DynWatchdog) -> Result<()>
 
             // If there are no inferences for this type variable, go to the next one.
             if inferences.is_empty() {
+                #[cfg(smlxl_storage_layout_extractor_verif)]
+                crate::verif::skip(crate::verif::Site::Unify);
                 continue;
             }
 
